@@ -65,6 +65,9 @@ def grid_job(args):
     from vlib import grids
     angs = ANG[::2] + [109.4712206] if quick else ANG
     triples = [t for t in itertools.product(angs, repeat=3) if positivity(*t) > 0.02]
+    # the rectangular cell is frame 0 of the all-cells trajectory: a shortcut decided from the first frame only
+    # ("the trajectory is rectilinear") then meets sheared frames behind it
+    triples.sort(key=lambda t: t != (90.0, 90.0, 90.0))
     near = []
     if not quick:
         # near-degenerate: gamma pushed towards the boundary alpha + beta (positivity margin ~1e-3)
@@ -169,6 +172,10 @@ def _vec_menu(kind, n):
     if kind == "ortho-halfturn":
         # an orthorhombic cell described after a half-turn about x: a diagonal matrix with two negative entries
         return np.array([np.diag([3.0, -3.5, -4.0])] * n)
+    if kind == "ortho-then-tricl":
+        # a shear run: frame 0 rectangular, the later frames sheared
+        v = grids.lengths_angles_to_vectors(3.0, 3.5, 4.0, 75.0, 100.0, 115.0)
+        return np.array([np.diag([3.0, 3.5, 4.0])] + [v] * (n - 1))
     if kind == "tricl-rot":
         v = grids.lengths_angles_to_vectors(3.0, 3.5, 4.0, 75.0, 100.0, 115.0)
         R = grids.generic_rotations(1, 3)[0]
@@ -190,7 +197,7 @@ class CellModel:
         return self.L is not None and self.A is not None
 
     def enabled(self):
-        ops = [("vectors", "cubic"), ("vectors", "ortho-halfturn"), ("vectors", "tricl-rot"), ("vectors", "varying"), ("lengths",), ("angles",),
+        ops = [("vectors", "cubic"), ("vectors", "ortho-halfturn"), ("vectors", "tricl-rot"), ("vectors", "varying"), ("vectors", "ortho-then-tricl"), ("lengths",), ("angles",),
                ("lengths_none",), ("angles_none",), ("vectors_none",), ("idx0",), ("copy",), ("join",), ("stack",)]
         if self.n >= 2:
             ops.append(("stride2",))
